@@ -193,6 +193,7 @@ func (g *gen) execInstr(in ssa.Instruction, st *state) {
 		g.vals[x] = g.val(st, x.X)
 	case *ssa.ChangeType:
 		g.vals[x] = g.val(st, x.X)
+		g.checkFuncConversion(x)
 		if g.zeroOff[x.X] {
 			g.zeroOff[x] = true
 		}
@@ -208,6 +209,11 @@ func (g *gen) execInstr(in ssa.Instruction, st *state) {
 		for _, b := range x.Bindings {
 			if l, ok := g.locs[b]; ok && l.kind == locLocal {
 				g.escaped[l.alloc] = true
+			}
+			if a, ok := b.(*ssa.Alloc); ok && a.Heap {
+				if t, ok := g.vals[a]; ok {
+					g.captured = append(g.captured, t)
+				}
 			}
 		}
 	case *ssa.MakeSlice:
@@ -960,4 +966,49 @@ func (g *gen) runeFacts(v ssa.Value, term string) {
 		seq = app("snoc", seq, fmt.Sprint(int(lit[i])))
 	}
 	g.assume(sAnd(sEq(app("runesOf", term), seq), sEq(app("runeCount", term), fmt.Sprint(len(lit)))))
+}
+
+// checkFuncConversion: a concrete function converted to a named function type that has a contract must itself
+// be under a (verified) contract; its contract is compared clause-free: the obligation is the existence of a
+// verified contract with the same frame discipline (no modifies clause, no readonly-if weaker than the type's).
+func (g *gen) checkFuncConversion(x *ssa.ChangeType) {
+	nt, ok := x.Type().(*types.Named)
+	if !ok {
+		return
+	}
+	if _, isSig := nt.Underlying().(*types.Signature); !isSig {
+		return
+	}
+	tcon := g.P.getContract("functype "+nt.Obj().Name())
+	if tcon == nil || !g.opts.frames {
+		return
+	}
+	var fn *ssa.Function
+	switch f := x.X.(type) {
+	case *ssa.Function:
+		fn = f
+	case *ssa.MakeClosure:
+		fn = f.Fn.(*ssa.Function)
+	}
+	if fn == nil {
+		fn = returnedClosure(x.X)
+	}
+	if fn == nil {
+		// a function value of unknown origin (e.g. returned by a call): its producer is responsible
+		if c, ok := x.X.(*ssa.Call); ok {
+			if callee := c.Call.StaticCallee(); callee != nil {
+				if pc := g.P.contractFor(callee); pc != nil && pc.flag("returns-"+nt.Obj().Name()) {
+					return
+				}
+			}
+		}
+		g.oblige("closure-contract", "value converted to "+nt.Obj().Name()+" is of unknown origin", x.Pos(), "false", nil)
+		return
+	}
+	fc := g.P.contractFor(fn)
+	ok2 := fc != nil && !fc.flag("trusted") && len(fc.Modifies) == 0 && (fc.ReadonlyIf == nil || tcon.ReadonlyIf != nil)
+	if fc != nil && fc.flag("synth") && fc.ReadonlyIf != nil && fc.ReadonlyIf.Text == "false" {
+		ok2 = false
+	}
+	g.oblige("closure-contract", g.P.relName(fn)+" used as "+nt.Obj().Name()+" must have a verified contract with the type's frame", x.Pos(), boolLit(ok2), nil)
 }
